@@ -36,6 +36,25 @@ one level of emphasis around words, in any order and number (`MixDoc`, which con
 `C01b_mix_contains`).  Still excluded: an escaped backslash directly before a code span (`noBsBeforeCode`), `<` in
 code, emphasis around anything but one run of words.
 
+Rung C grown further (`C01_em_content`): the content of an `em` / `strong` may be words, escapes and code spans
+(`DeepDoc`, which contains `MixDoc`: `C01b_deep_contains`); emphasis inside emphasis is still outside.  There the
+emphasis element is stashed with placeholders in its text — its stash entry depends on how many entries precede it,
+hence `Elem.items : Nat → List StashItem` — and `__processPlaceholders` resolves them when the element comes out of the
+stash (`procNode_em1`); the inline processor then visits the code spans inside the emphasis once more and changes
+nothing (`Still`).  Patterns 0 and 1 do not see the nesting: they are proved on a flat list of tokens (`code_passF`,
+`esc_passF`) into which the line is flattened.
+
+Rung C grown again (`C01_em_nested`): emphasis inside emphasis — the content of an `em` / `strong` may itself contain
+`em` / `strong` around words, escapes and code spans (`Deep2Doc`, which contains `DeepDoc`: `C01b_nested_contains`).
+That is all the nesting `WF` allows (`em` in `strong`, `strong` in `em`, two deep, the inner ones between spaces or at
+the ends of the content); `print` gives the inner emphasis the other delimiter character.  The lemmas are in
+`Lemmas/DocParse3.lean`.  An outer `*` emphasis is matched at pattern 14 with its inner `_` emphases still in the text;
+the nested `__handleInline` call on the content, from pattern 15 on, takes them out (`C01b_nested_call`), so the stash
+gets the inner elements first and then the outer one.  An outer `_` emphasis waits for pattern 15: pattern 14 first
+takes the `*` emphases out of its content, inside the delimiters.  `__processPlaceholders` then resolves two levels
+(`C01b_nested_resolve`, fuel three deep), and the inline processor visits children and grandchildren again without
+effect.
+
 How it is proved: `C01_chunks`/`C01_leaves` of `Props/C01.lean` are generalised to
 * `Elem`/`ElemOK` (`C01b_render_elems`): one child of the root through inline processor, prettify, unescape, serializer
   — with what it adds to the stash and pushes on the inline processor's stack; the leaves of `Props/C01.lean` and
@@ -46,6 +65,7 @@ How it is proved: `C01_chunks`/`C01_leaves` of `Props/C01.lean` are generalised 
 -/
 import MdVerif.Props.C01
 import MdVerif.Lemmas.DocParse2
+import MdVerif.Lemmas.DocParse3
 
 namespace MdVerif.DocParse2
 open Py DocSpec CodeLaw DocParse Block
@@ -311,7 +331,245 @@ theorem C01_inline_mix (d : Doc) (sp : Spelling) (hwf : WF d = true) (hs : DocSp
     Pipeline.convert {} (print d sp) = .ok (spec d) :=
   convert_mixDoc d sp hwf hs
 
+/-! ### rung C grown further: emphasis around words, escapes and code spans -/
+
+/-- **The pattern loop on a line whose emphases contain words, escapes and code spans.**  `flatten1` is the flat view
+    of the line (delimiters as ordinary characters); the result has every item as a placeholder, and the stash holds
+    the code elements (those inside emphasis too), the escape codes, then the `*` and the `_` emphasis elements, each
+    with the placeholders of its content in its text. -/
+theorem C01b_deep_loop (cfg : Inline.Cfg) (hE : EscOK cfg.esc) (hs : EscSup cfg.esc) (t0 : Str)
+    (segs : List Seg1) (st : Inline.St) (hok : Segs1OK segs) (hF : FSegsOK (flatten1 segs))
+    (hj : junctionsF t0 false (flatten1 segs)) (hu : UnderOK1 cfg.esc (lastW cfg.esc t0) segs)
+    (hplain : ∀ c, (c ∈ t0 ∨ ∃ s ∈ segs, c ∈ s.t) → c ≠ '&' ∧ c ≠ '\n') :
+    ∃ data st', Inline.handleInlineTop cfg (Escape.escAll cfg.esc t0 ++ stageF cfg.esc false false 0 0 (flatten1 segs)) st =
+      some (data, st') :=
+  ⟨_, _, handleInlineTop_L1 cfg hE hs t0 segs st hok hF hj hu hplain⟩
+
+/-- **An emphasis element comes out of the stash with its content resolved**: text, and the code spans as children. -/
+theorem C01b_deep_nested (esc : List Char) (hs : EscSup esc) (S : List Inline.StashItem) (f : Nat) (hf : 0 < f)
+    (st : Bool) (β : Body0) (hβ : Body0OK β) (m n0 : Nat) (rest : List Inline.StashItem)
+    (hdrop : S.drop m = Escape.stashOf esc β.u0 ++ stashOfSegs esc β.spans ++ rest) (hst : SegStash S n0 β.spans)
+    (hclean : ∀ s ∈ β.spans, Inline.STX ∉ Code.codeEscape s.b) :
+    Inline.procNode (fun d a p i => Inline.processPlaceholders S (f + 1) d a p i) (emEl st (body0R esc m n0 β)) =
+      some (emFull esc st β) :=
+  procNode_em1 esc hs S f hf st β hβ m n0 rest hdrop hst hclean
+
+/-- **Such a paragraph or heading is an element of the composition.** -/
+theorem C01b_deep_elem (cfg : Inline.Cfg) (hE : EscOK cfg.esc) (hs : EscSup cfg.esc) (tag t0 : Str)
+    (segs : List Seg1) (h : L1TxtOK cfg.esc tag t0 segs) : ElemOK cfg (l1Elem cfg.esc tag t0 segs) :=
+  l1Elem_ok cfg hE hs tag t0 segs h
+
+/-- **`DeepDoc` contains `MixDoc`.** -/
+theorem C01b_deep_contains (d : Doc) (h : DocSpec.MixDoc d = true) : DocSpec.DeepDoc d = true := by
+  simp only [DocSpec.MixDoc, DocSpec.DeepDoc, List.all_eq_true] at h ⊢
+  intro b hb
+  have hr : ∀ c : List DocSpec.Inline, mixRun c = true → deepRun c = true := by
+    intro c hc
+    simp only [mixRun, deepRun, Bool.and_eq_true, List.all_eq_true] at hc ⊢
+    refine ⟨fun x hx => ?_, hc.2⟩
+    have := hc.1 x hx
+    cases x with
+    | em l => cases l with
+      | nil => simp [isMixItem] at this
+      | cons y l' => cases l' <;> cases y <;> simp_all [isMixItem, isDeepItem, isSpanItem, noBsBeforeCode]
+    | strong l => cases l with
+      | nil => simp [isMixItem] at this
+      | cons y l' => cases l' <;> cases y <;> simp_all [isMixItem, isDeepItem, isSpanItem, noBsBeforeCode]
+    | _ => simp_all [isMixItem, isDeepItem]
+  have := h b hb
+  cases b with
+  | para c => exact hr c this
+  | atx l c => exact hr c this
+  | setext l c => exact hr c this
+  | rule => rfl
+  | code ls => exact this
+  | quote _ => simp [isMixBlock] at this
+  | ulist _ _ => simp [isMixBlock] at this
+  | olist _ _ => simp [isMixBlock] at this
+
+/-- **Rung C grown further.**  `d` well-formed, every block a rule, an indented code block without `<`, or a paragraph /
+    ATX heading / Setext heading of words, escapes, code spans without `<` and `em` / `strong` around words, escapes and
+    code spans (no escaped backslash directly before a code span, at either level): under EVERY spelling the converter
+    returns `spec d`. -/
+theorem C01_em_content (d : Doc) (sp : Spelling) (hwf : WF d = true) (hs : DocSpec.DeepDoc d = true) :
+    Pipeline.convert {} (print d sp) = .ok (spec d) :=
+  convert_deepDoc d sp hwf hs
+
+/-! ### rung C grown again: emphasis inside emphasis -/
+
+/-- **The nested `__handleInline` call on the content of an outer `*` emphasis.**  The content `u0 item t item t …`
+    (code spans and escapes placeholders already, no `*` emphasis in it, the `_` emphases between characters that are
+    not word characters) is handed to the pattern loop from pattern 15 on: every `_` emphasis becomes a placeholder, in
+    order, and its element is stashed. -/
+theorem C01b_nested_call (cfg : Inline.Cfg) (f : Nat) (hs : EscSup cfg.esc) (h1 : '*' ∈ cfg.esc) (h2 : '_' ∈ cfg.esc)
+    (u0 : Str) (segs : List Seg1) (m m' n0 a b : Nat) (st : Inline.St) (hok : Segs1OK segs)
+    (hnostar : ∀ s ∈ segs, s.k.cls ≠ 1) (hu : UnderOK1 cfg.esc (lastW cfg.esc u0) segs) :
+    Inline.handleInline cfg (f + 2) (Escape.resid cfg.esc m u0 ++ stageL1 cfg.esc 1 m' n0 a b segs) 15 st =
+      some (Escape.resid cfg.esc m u0 ++ stageL1 cfg.esc 3 m' n0 a st.stash.length segs,
+        { st with stash := st.stash ++ nodes1 2 cfg.esc m' n0 segs }) :=
+  hi15_line1 cfg f hs h1 h2 u0 segs m m' n0 a b st hok hnostar hu
+
+/-- **The pattern loop on a line with emphasis inside emphasis.**  `flatten2` is the flat view of the line; the result
+    has every top-level item as a placeholder, and the stash holds the code elements, the escape codes, what pattern 14
+    stashed (`nodesS`: per outer `*` emphasis its inner `_` elements and then itself, per outer `_` emphasis its inner
+    `*` elements) and what pattern 15 stashed (`nodesU`: the outer `_` elements). -/
+theorem C01b_nested_loop (cfg : Inline.Cfg) (hE : EscOK cfg.esc) (hs : EscSup cfg.esc) (t0 : Str)
+    (segs : List Seg2) (st : Inline.St) (hok : Segs2OK cfg.esc segs) (hF : FSegsOK (flatten2 segs))
+    (hj : junctionsF t0 false (flatten2 segs)) (hu : UnderOK2 cfg.esc (lastW cfg.esc t0) segs)
+    (hplain : ∀ c, (c ∈ t0 ∨ ∃ s ∈ segs, c ∈ s.t) → c ≠ '&' ∧ c ≠ '\n') :
+    ∃ data st', Inline.handleInlineTop cfg (Escape.escAll cfg.esc t0 ++ stageF cfg.esc false false 0 0 (flatten2 segs)) st =
+      some (data, st') :=
+  ⟨_, _, handleInlineTop_L2 cfg hE hs t0 segs st hok hF hj hu hplain⟩
+
+/-- **An outer emphasis element comes out of the stash with its content resolved**: text, and the items of its content
+    as children — code spans, and emphasis elements that are themselves resolved. -/
+theorem C01b_nested_resolve (esc : List Char) (hs : EscSup esc) (S : List Inline.StashItem) (f : Nat) (st : Bool)
+    (d : Char) (hd : d = '*' ∨ d = '_') (β : Body1) (hβ : Body1OK esc d β) (hf : β.segs ≠ [] → 0 < f) (m n0 n1 : Nat)
+    (rest : List Inline.StashItem) (hdrop : S.drop m = Escape.stashOf esc β.u0 ++ escs1 esc β.segs ++ rest)
+    (hcode : CodeLay S n0 β.segs) (hem : EmLay esc S (m + Escape.escCount esc β.u0) n0 n1 n1 β.segs)
+    (hclean : ∀ s ∈ β.segs, s.k.clean) :
+    Inline.procNode (fun d a p i => Inline.processPlaceholders S (f + 1 + 1) d a p i)
+        (emEl st (body2 esc 3 m n0 n1 β)) = some (emFull2 esc st β) :=
+  procNode_em2 esc hs S f st d hd β hβ hf m n0 n1 rest hdrop hcode hem hclean
+
+/-- **Such a paragraph or heading is an element of the composition.** -/
+theorem C01b_nested_elem (cfg : Inline.Cfg) (hE : EscOK cfg.esc) (hs : EscSup cfg.esc) (tag t0 : Str)
+    (segs : List Seg2) (h : L2TxtOK cfg.esc tag t0 segs) (hstx : NoStx2 segs) :
+    ElemOK cfg (l2Elem cfg.esc tag t0 segs) :=
+  l2Elem_ok cfg hE hs tag t0 segs h hstx
+
+/-- **`Deep2Doc` contains `DeepDoc`.** -/
+theorem C01b_nested_contains (d : Doc) (h : DocSpec.DeepDoc d = true) : DocSpec.Deep2Doc d = true := by
+  simp only [DocSpec.DeepDoc, DocSpec.Deep2Doc, List.all_eq_true] at h ⊢
+  intro b hb
+  have hsp : ∀ y : DocSpec.Inline, isSpanItem y = true → isDeepItem y = true := by
+    intro y hy; cases y <;> simp_all [isSpanItem, isDeepItem]
+  have hr : ∀ c : List DocSpec.Inline, deepRun c = true → deep2Run c = true := by
+    intro c hc
+    simp only [deepRun, deep2Run, Bool.and_eq_true, List.all_eq_true] at hc ⊢
+    refine ⟨fun x hx => ?_, hc.2⟩
+    have := hc.1 x hx
+    cases x with
+    | em l =>
+      simp only [isDeepItem, isDeep2Item, Bool.and_eq_true, List.all_eq_true] at this ⊢
+      exact ⟨fun y hy => hsp y (this.1 y hy), this.2⟩
+    | strong l =>
+      simp only [isDeepItem, isDeep2Item, Bool.and_eq_true, List.all_eq_true] at this ⊢
+      exact ⟨fun y hy => hsp y (this.1 y hy), this.2⟩
+    | _ => simp_all [isDeepItem, isDeep2Item]
+  have := h b hb
+  cases b with
+  | para c => exact hr c this
+  | atx l c => exact hr c this
+  | setext l c => exact hr c this
+  | rule => rfl
+  | code ls => exact this
+  | quote _ => simp [isDeepBlock] at this
+  | ulist _ _ => simp [isDeepBlock] at this
+  | olist _ _ => simp [isDeepBlock] at this
+
+/-- **Rung C grown again.**  `d` well-formed, every block a rule, an indented code block without `<`, or a paragraph /
+    ATX heading / Setext heading of words, escapes, code spans without `<` and `em` / `strong` whose content is words,
+    escapes, code spans and again `em` / `strong` around words, escapes and code spans (no escaped backslash directly
+    before a code span, at any level): under EVERY spelling the converter returns `spec d`.  With `WF` this is every
+    nesting of emphasis there is in the specification language. -/
+theorem C01_em_nested (d : Doc) (sp : Spelling) (hwf : WF d = true) (hs : DocSpec.Deep2Doc d = true) :
+    Pipeline.convert {} (print d sp) = .ok (spec d) :=
+  convert_deep2Doc d sp hwf hs
+
+/-- **Spelling never changes the rendering** (on the largest sub-grammar of this file): two spellings of the same
+    well-formed document of `Deep2Doc` convert to the same HTML. -/
+theorem C01_nested_spelling (d : Doc) (sp sp' : Spelling) (hwf : WF d = true) (hs : DocSpec.Deep2Doc d = true) :
+    Pipeline.convert {} (print d sp) = Pipeline.convert {} (print d sp') := by
+  rw [C01_em_nested d sp hwf hs, C01_em_nested d sp' hwf hs]
+
+/-- every sub-grammar of this file and `FlatCodeDoc`'s paragraphs are inside `Deep2Doc`: the chain of containments -/
+theorem C01b_chain (d : Doc) (h : DocSpec.EmDoc d = true ∨ DocSpec.MixDoc d = true ∨ DocSpec.DeepDoc d = true) :
+    DocSpec.Deep2Doc d = true := by
+  rcases h with h | h | h
+  · exact C01b_nested_contains d (C01b_deep_contains d (C01b_mix_contains d h))
+  · exact C01b_nested_contains d (C01b_deep_contains d h)
+  · exact C01b_nested_contains d h
+
 /-! ### the hypotheses are satisfiable; instances evaluated by the kernel -/
+
+/-- `strong` in `em` in the middle of words, two `em` in a `strong` (the first with an escaped delimiter and a code span),
+    `strong` alone in an `em` with a code span that looks like emphasis, nested emphasis in both kinds of heading, an
+    escaped backslash as the whole content of an inner `strong` -/
+def sampleNest : Doc :=
+  [.para [.em [.text (S "a "), .strong [.text (S "b")], .text (S " c")], .text (S " x "),
+     .strong [.em [.esc '*', .code (S "k")], .text (S " "), .em [.text (S "z")]], .esc '_',
+     .em [.strong [.code (S "_q_"), .text (S "w")]]],
+   .atx 3 [.strong [.text (S "S "), .em [.text (S "e"), .esc '`']], .text (S " and "), .code (S "*")],
+   .setext 2 [.em [.strong [.text (S "in")], .text (S " "), .code (S "c"), .text (S " "), .strong [.esc '\\']], .text (S " t")],
+   .code [S "__raw__"]]
+
+example : WF sampleNest = true ∧ DocSpec.Deep2Doc sampleNest = true ∧ DocSpec.DeepDoc sampleNest = false := by decide
+
+/-- outer `_` / `__` with inner `**` / `*` … -/
+example : print sampleNest ⟨[0, 1, 1, 3, 1, 5, 7, 2, 1, 1, 9, 3, 1, 1, 1, 1, 1, 1, 3, 3, 3, 1, 1, 1, 1, 1]⟩ =
+    ("_a **b** c_ x __*\\*```k```* *z*__\\_*__``_q_``w__*\n\n### __S *e\\`*__ and ``*``\n\n" ++
+     " _**in** `c` **\\\\**_ t\n--\n\n    __raw__").toList := by decide +kernel
+
+/-- … and outer `*` / `**` with inner `__` / `_` -/
+example : print sampleNest ⟨[2, 0, 0, 2, 0, 4, 6, 2, 0, 2, 8, 2, 0, 0, 2, 0, 0, 2, 2, 2, 2, 0, 0]⟩ =
+    ("  *a __b__ c* x **_\\*``k``_ _z_**\\_*__```_q_```w__*\n\n### **S _e\\`_** and `*` ###\n\n" ++
+     "  *__in__ ```c``` __\\\\__* t\n-\n\n    __raw__").toList := by decide +kernel
+
+example : spec sampleNest =
+    ("<p><em>a <strong>b</strong> c</em> x <strong><em>*<code>k</code></em> <em>z</em></strong>_" ++
+     "<em><strong><code>_q_</code>w</strong></em></p>\n<h3><strong>S <em>e`</em></strong> and <code>*</code></h3>\n" ++
+     "<h2><em><strong>in</strong> <code>c</code> <strong>\\</strong></em> t</h2>\n" ++
+     "<pre><code>__raw__\n</code></pre>").toList := by decide +kernel
+
+example : Pipeline.convert {} (print sampleNest ⟨[0, 1, 1, 3, 1, 5, 7, 2, 1, 1, 9, 3, 1, 1, 1, 1, 1, 1, 3, 3, 3, 1, 1, 1, 1, 1]⟩) =
+    .ok (spec sampleNest) :=
+  C01_em_nested _ _ (by decide) (by decide)
+
+/-- the same instance evaluated by the kernel on the model, independently of the theorem -/
+example : Pipeline.convert {} (print sampleNest ⟨[0, 1, 1, 3, 1, 5, 7, 2, 1, 1, 9, 3, 1, 1, 1, 1, 1, 1, 3, 3, 3, 1, 1, 1, 1, 1]⟩) =
+    .ok (spec sampleNest) := by decide +kernel
+
+example : Pipeline.convert {} (print sampleNest ⟨[2, 0, 0, 2, 0, 4, 6, 2, 0, 2, 8, 2, 0, 0, 2, 0, 0, 2, 2, 2, 2, 0, 0]⟩) =
+    .ok (spec sampleNest) := by decide +kernel
+
+/-- what is outside: three levels and `em` directly in `em` are not well-formed; an inner emphasis that touches a word is
+    not well-formed either; the escaped backslash before a code span stays excluded by the predicate, at every level -/
+example : WF [.para [.em [.strong [.em [.text (S "a")]]]]] = false ∧
+    WF [.para [.em [.em [.text (S "a")]]]] = false ∧
+    WF [.para [.em [.text (S "a"), .strong [.text (S "b")]]]] = false ∧
+    DocSpec.Deep2Doc [.para [.em [.strong [.esc '\\', .code (S "x")]]]] = false := by decide
+
+/-- emphasis around escapes (also an escaped delimiter and a backslash), around code spans only, around words with
+    code spans in the middle; code spans that contain delimiters; everything touching -/
+def sampleDeep : Doc :=
+  [.para [.em [.text (S "one "), .esc '*', .code (S "a*b"), .text (S " x")], .code (S "c"), .text (S " and "),
+     .strong [.esc '_', .text (S "two"), .esc '\\'], .esc '*', .em [.code (S "`q`")], .text (S " "),
+     .strong [.code (S "_"), .esc '*', .code (S "**")]],
+   .atx 2 [.strong [.esc '#', .text (S " Bold")], .em [.text (S "it"), .esc '`'], .text (S " tail")],
+   .setext 1 [.text (S "A "), .em [.text (S "b "), .code (S "k"), .text (S " c")], .text (S " "), .strong [.text (S "d")]],
+   .code [S "*raw*"]]
+
+example : WF sampleDeep = true ∧ DocSpec.DeepDoc sampleDeep = true ∧ DocSpec.MixDoc sampleDeep = false := by decide
+
+example : print sampleDeep ⟨[0, 1, 1, 3, 1, 5, 7, 2, 1, 1, 9, 3, 1, 1, 1, 1, 1, 1, 3, 3, 3, 1, 1]⟩ =
+    ("_one \\*``a*b`` x_`c` and __\\_two\\\\__\\*_``` `q` ```_ **``_``\\*``**``**\n\n## **\\# Bold**_it\\`_ tail\n\n" ++
+     " A _b ``k`` c_ __d__\n==\n\n    *raw*").toList := by decide +kernel
+
+example : spec sampleDeep =
+    ("<p><em>one *<code>a*b</code> x</em><code>c</code> and <strong>_two\\</strong>*<em><code>`q`</code></em> " ++
+     "<strong><code>_</code>*<code>**</code></strong></p>\n<h2><strong># Bold</strong><em>it`</em> tail</h2>\n" ++
+     "<h1>A <em>b <code>k</code> c</em> <strong>d</strong></h1>\n<pre><code>*raw*\n</code></pre>").toList := by
+  decide +kernel
+
+example : Pipeline.convert {} (print sampleDeep ⟨[0, 1, 1, 3, 1, 5, 7, 2, 1, 1, 9, 3, 1, 1, 1, 1, 1, 1, 3, 3, 3, 1, 1]⟩) =
+    .ok (spec sampleDeep) :=
+  C01_em_content _ _ (by decide) (by decide)
+
+/-- the same instance evaluated by the kernel on the model, independently of the theorem -/
+example : Pipeline.convert {} (print sampleDeep ⟨[0, 1, 1, 3, 1, 5, 7, 2, 1, 1, 9, 3, 1, 1, 1, 1, 1, 1, 3, 3, 3, 1, 1]⟩) =
+    .ok (spec sampleDeep) := by decide +kernel
+
 
 /-- code spans and emphasis touching each other in every order, with escapes in between; code bodies that look like
     emphasis -/
